@@ -158,8 +158,8 @@ func init() {
 									if !c.Thorough() && rb == 700 && ck == 0 {
 										continue
 									}
-									emit(rangeCase{P: Params{cd[0], cd[1], 1024, 2, ck, -1, false}, Blocks: nb, Tail: tail, Jobs: j, RB: rb})
-									emit(rangeCase{P: Params{cd[0], cd[1], 1024, 2, ck, -1, false}, Blocks: nb, Tail: tail, Jobs: j, RB: rb, Corrupt: true})
+									emit(rangeCase{P: Params{cd[0], cd[1], 1024, 2, ck, -1, false, false}, Blocks: nb, Tail: tail, Jobs: j, RB: rb})
+									emit(rangeCase{P: Params{cd[0], cd[1], 1024, 2, ck, -1, false, false}, Blocks: nb, Tail: tail, Jobs: j, RB: rb, Corrupt: true})
 								}
 							}
 						}
